@@ -243,6 +243,9 @@ def run(ch, config, res):
     world = World(ch, cfg, client_impl=config.get("client", "real"), read_timeout=5)
     srv = world.server
     srv.data_variation = cell is None
+    # in the random part every status reply takes the shapes RFC 5804 allows (codes, texts as literals, texts whose lines
+    # look like status lines): a refusal half-read by the client must not derail the rest of the rename
+    srv.status_variation = cell is None
     oldn, newn = build_store(srv, state, body, names=names)
     if quota:
         cfg.max_scripts = len(srv.scripts)   # the copy cannot be stored
